@@ -47,6 +47,9 @@ DIRECTED = [
     # bursts: headers + tx + update + in-sync in one write, before the accept, after it, after a re-declared Ready and after a reconnect
     ('bursts', 1, [('Burst', 7, '', 0), ('Accept', 0, 'valid', 0), ('Burst', 7, '', 0), ('Ready', 1, '', 0), ('Burst', 7, '', 0), ('Burst', 7, '', 0), ('Notify', 5, 'tx', 0),
                    ('Drop', 0, '', 0), ('Accept', 0, 'valid', 0), ('Ready', 5, '', 0), ('Burst', 7, '', 0)]),
+    # the service streams the first tx right behind the ready message (before Ready has returned in the client)
+    ('ready-race', 1, [('Accept', 0, 'valid', 0), ('ReadyRace', 3, '', 0), ('Notify', 4, 'tx', 0), ('Notify', 5, 'upd', 0), ('Drop', 0, '', 0), ('Accept', 0, 'valid', 0),
+                       ('ReadyRace', 2, '', 0), ('Notify', 3, 'tx', 0)]),
     # a time-out does not disturb the other pending call; the late answer is dropped
     ('timeout-isolated', 1, [('Accept', 0, 'valid', 0), ('Ready', 1, '', 0), ('Call', 0, 'GetTx', 1), ('Call', 1, 'GetHeader', 2), ('Respond', 1, 'ok', 0),
                              ('Timeout', 0, '', 0), ('Respond', 0, 'ok', 0), ('Call', 0, 'GetTx', 1), ('Respond', 0, 'ok', 0)]),
